@@ -27,7 +27,7 @@ pub fn info() -> CheckInfo {
             "gamma(IntervalDomain) = {start, start+stride, .., end} read from the serde form; widening hints and delay do not change gamma",
             "inputs with widening hints are built through update_widening_*_bound (public API), so only reachable hint states are fed",
             "operands of intersect and bound/value pairs have equal widths (asserted by the code)",
-            "DataDomain: only the absolute part is judged (DataDomain::intersect is documented as unsound for relative values); for intersect the demand is restricted to values contained in both absolute parts",
+            "DataDomain: only the absolute part is judged (DataDomain::intersect is documented as unsound for relative values); for intersect the demand is restricted to values contained in both absolute parts, plus - when exactly one operand has the top flag, i.e. may be any value - all absolute values of the other operand",
             "verdicts on the release profile",
         ],
         run,
@@ -551,12 +551,29 @@ pub fn check_data_intersect(da: &DD, db: &DD, known: &[V], rep: &mut Report, tra
     let desc = || format!("intersect({}, {})", dd_show(da, &aa), dd_show(db, &ab));
     let case = || json!({"kind":"data-intersect","dd":serde_json::to_value(da).unwrap_or(Value::Null),"dd2":serde_json::to_value(db).unwrap_or(Value::Null),"wa":known.iter().take(16).map(|v| vjson(*v)).collect::<Vec<_>>()});
     let size = dd_size(da, &aa) + dd_size(db, &ab);
-    let list: Vec<V> = match (&aa, &ab) {
+    let mut list: Vec<V> = match (&aa, &ab) {
         (Some(a), Some(b)) => match common_members(&a.iv, &b.iv, known) {
             Common::Exact(l) | Common::Some(l) => l,
         },
         _ => Vec::new(),
     };
+    // A value with the top flag may be any value (the implementation says so itself: "the other input is the best
+    // approximation for the intersection"). If exactly one operand has the flag, every absolute value of the other
+    // operand is therefore in the intersection.
+    if da.contains_top() != db.contains_top() {
+        let plain = if da.contains_top() { &ab } else { &aa };
+        if let Some(p) = plain {
+            let members = p.iv.all_members(512).unwrap_or_else(|| p.iv.std_members());
+            for m in members {
+                if !list.contains(&m) {
+                    list.push(m);
+                }
+            }
+        }
+        if track {
+            rep.obs("data:intersect:one-operand-with-top-flag");
+        }
+    }
     match res {
         Err(p) => rep.violation(sig(&format!("panic:{}", panic_site(&p))), None, format!("{} panicked: {p}", desc()), case(), size),
         Ok(Err(_)) => {
@@ -566,12 +583,12 @@ pub fn check_data_intersect(da: &DD, db: &DD, known: &[V], rep: &mut Report, tra
                     rep.violation(
                         sig("err-but-feasible:lcm-overflow"),
                         Some(KNOWN_CRT_OVERFLOW),
-                        format!("{} = Err although {:#x} is contained in both absolute parts (lcm of the strides exceeds 64 bits)", desc(), v.v),
+                        format!("{} = Err although {:#x} is contained in both operands (absolute parts; an operand with the top flag contains every value) (lcm of the strides exceeds 64 bits)", desc(), v.v),
                         case(),
                         size,
                     );
                 } else {
-                    rep.violation(sig("err-but-feasible"), None, format!("{} = Err although {:#x} is contained in both absolute parts", desc(), v.v), case(), size);
+                    rep.violation(sig("err-but-feasible"), None, format!("{} = Err although {:#x} is contained in both operands (absolute parts; an operand with the top flag contains every value)", desc(), v.v), case(), size);
                 }
             }
         }
@@ -582,7 +599,7 @@ pub fn check_data_intersect(da: &DD, db: &DD, known: &[V], rep: &mut Report, tra
                         if let Some(v) = list.first() {
                             let overflow = matches!((&aa, &ab), (Some(a), Some(b)) if lcm_overflows(&a.iv, &b.iv));
                             let (what, key) = if overflow { ("lost-absolute:lcm-overflow", Some(KNOWN_CRT_OVERFLOW)) } else { ("lost-absolute", None) };
-                            rep.violation(sig(what), key, format!("{}: no absolute part and no top flag although {:#x} is in both absolute parts", desc(), v.v), case(), size);
+                            rep.violation(sig(what), key, format!("{}: no absolute part and no top flag although {:#x} is in both operands (absolute parts; an operand with the top flag contains every value)", desc(), v.v), case(), size);
                         }
                     }
                     Some(Err(e)) => rep.violation(sig("illformed:unobservable"), None, format!("{}: {e}", desc()), case(), size),
@@ -590,7 +607,7 @@ pub fn check_data_intersect(da: &DD, db: &DD, known: &[V], rep: &mut Report, tra
                         if let Some((kind, d)) = wf_error(&o, Some(w)) {
                             rep.violation(sig(&format!("illformed:{kind}")), None, format!("{}: absolute result {} ill-formed: {d}", desc(), o.iv.show()), case(), size);
                         } else if let Some(v) = list.iter().find(|v| !o.iv.contains(**v)) {
-                            rep.violation(sig("lost-member"), None, format!("{}: absolute result {} lost {:#x}, which is in both absolute parts", desc(), o.iv.show(), v.v), case(), size);
+                            rep.violation(sig("lost-member"), None, format!("{}: absolute result {} lost {:#x}, which is in both operands (absolute parts; an operand with the top flag contains every value)", desc(), o.iv.show(), v.v), case(), size);
                         }
                     }
                 }
